@@ -433,7 +433,7 @@ mut("C16", "r1-unmarshal-keeps-offset", "container/serialization.go",
 mut("C16", "r2-peek-unguarded", "container/container.go",
     "\tif c.offset < len(c.compartments) && len(c.compartments[c.offset]) >= n {", "\tif len(c.compartments[c.offset]) >= n {", "C16-R2|Peek", comment="reverts fix de5fb17")
 mut("C16", "r3-block-unbounded", "container/container.go",
-    "\tif blockSize > uint64(c.Length()) {\n\t\treturn nil, errors.New(\"container: not enough data to return\")\n\t}\n", "", "C16-R3|GetNextBlock", comment="reverts fix c331037")
+    "\tif blockSize > uint64(c.Length()-n) {\n\t\treturn nil, errors.New(\"container: not enough data to return\")\n\t}\n\tc.skip(n)\n\treturn c.Get(int(blockSize))", "\tc.skip(n)\n\treturn c.Get(int(blockSize))", "C16-R3|GetNextBlock", comment="reverts fix c331037")
 mut("C16", "r3-peekcontainer-negative-empty", "container/container.go",
     "\tif n < 0 {\n\t\treturn nil\n\t} else if n == 0 {\n\t\treturn &Container{}\n\t}", "\tif n <= 0 {\n\t\treturn &Container{}\n\t}", "C16-R3|negative size is an error")
 mut("C16", "r4-n32-peek4", "container/container.go",
@@ -772,7 +772,7 @@ mut("C19", "r2-sort-oldest-first", "updater/resource.go",
 mut("C11", "r9-limit-parsed-64bit", "database/query/parser.go",
     "limit, err := strconv.ParseUint(limitSnippet.text, 10, 31)", "limit, err := strconv.ParseUint(limitSnippet.text, 10, 64)", "C11-R9|database/query.ParseQuery / uint64 -> int")
 mut("C16", "r10-blocksize-narrowed-untested", "container/container.go",
-    "\tif blockSize > uint64(c.Length()) {\n\t\treturn nil, errors.New(\"container: not enough data to return\")\n\t}\n", "", "C16-R10|container.(*Container).GetNextBlock / uint64 -> int")
+    "\tif blockSize > uint64(c.Length()-n) {\n\t\treturn nil, errors.New(\"container: not enough data to return\")\n\t}\n\tc.skip(n)\n\treturn c.Get(int(blockSize))", "\tc.skip(n)\n\treturn c.Get(int(blockSize))", "C16-R10|container.(*Container).GetNextBlock / uint64 -> int")
 mut("C10", "r5-unpack16-narrowed-untested", "formats/varint/varint.go",
     "\tif n > 65535 {\n\t\treturn 0, 0, errors.New(\"varint: encoded integer greater than 65535 (uint16)\")\n\t}\n", "", "C10-R5|formats/varint.Unpack16 / uint64 -> uint16")
 
@@ -1081,3 +1081,23 @@ mut("C07", "r19-queue-handler-waits-for-start-alone", "modules/tasks.go",
 mut("C06", "r19-failed-start-keeps-context", "modules/modules.go",
     "\t\t\t// Cancel the context of the failed start: whatever the start function\n\t\t\t// already launched is told to stop, and tasks waiting for this module\n\t\t\t// to come online are released.\n\t\t\tm.cancelCtx()\n", "",
     "C06-R19|modules.(*Module).start$2", comment="reverts fix 6c1d6d3")
+
+mut("C16", "r17-block-prefix-consumed-before-check", "container/container.go",
+    "\tblockSize, n, err := varint.Unpack64(c.Peek(10))\n\tif err != nil {\n\t\treturn nil, err\n\t}\n\tif blockSize > uint64(c.Length()-n) {\n\t\treturn nil, errors.New(\"container: not enough data to return\")\n\t}\n\tc.skip(n)\n\treturn c.Get(int(blockSize))",
+    "\tblockSize, err := c.GetNextN64()\n\tif err != nil {\n\t\treturn nil, err\n\t}\n\tif blockSize > uint64(c.Length()) {\n\t\treturn nil, errors.New(\"container: not enough data to return\")\n\t}\n\treturn c.Get(int(blockSize))",
+    "C16-R17|container.(*Container).GetNextBlock", comment="reverts fix dc81d92")
+clone("C16-r17-block-prefix-consumed-before-check", "C10", "r10-block-prefix-consumed-before-check", "C10-R10|container.(*Container).GetNextBlock", "reverts fix dc81d92")
+mut("C16", "r17-container-block-skips-before-check", "container/container.go",
+    "\tif blockSize > uint64(c.Length()-n) {\n\t\treturn nil, errors.New(\"container: not enough data to return\")\n\t}\n\tc.skip(n)\n\treturn c.GetAsContainer(int(blockSize))",
+    "\tc.skip(n)\n\tif blockSize > uint64(c.Length()) {\n\t\treturn nil, errors.New(\"container: not enough data to return\")\n\t}\n\treturn c.GetAsContainer(int(blockSize))",
+    "C16-R17|container.(*Container).GetNextBlockAsContainer", comment="the prefix is skipped before the size check")
+
+mut("C19", "r20-purge-trusts-list-order", "updater/resource.go",
+    "\t// The purge boundary is searched from the newest version downwards. Versions\n\t// added since the last version selection are still appended at the end.\n\tsort.Sort(res)\n\n", "",
+    "C19-R20|updater.(*Resource).Purge", comment="reverts fix 20ab1fc")
+
+mut("C14", "r14-getcontroller-no-recheck", "database/controllers.go",
+    "\t// Another caller may have started the database while we waited for the lock.\n\tcontroller, ok = controllers[name]\n\tif ok {\n\t\treturn controller, nil\n\t}\n\n", "",
+    "C14-R14|database.getController", comment="reverts fix 0e38976")
+clone("C14-r14-getcontroller-no-recheck", "C02", "r22-getcontroller-no-recheck", "C02-R22|database.getController", "reverts fix 0e38976")
+clone("C14-r14-getcontroller-no-recheck", "C13", "r17-getcontroller-no-recheck", "C13-R17|database.getController", "reverts fix 0e38976")
